@@ -336,3 +336,81 @@ def tree_from_json(j, k):
     if kind == 'fp':
         return ('fp', C(atoms, j[1]), bool(j[2]), tree_from_json(j[3], k))
     raise KeyError(kind)
+
+
+def free_atoms(t, k):
+    """list of k guards: atom i has an occurrence in t that is not enclosed by a quantifier / fixed-point binder of i"""
+    kind = t[0]
+    if kind == 'leaf':
+        return [gand(t[1].g('var'), t[2].sel[i]) for i in range(k)]
+    if kind == 'not':
+        return free_atoms(t[1], k)
+    if kind in ('bin',):
+        a, b = free_atoms(t[2], k), free_atoms(t[3], k)
+        return [gor(x, y) for x, y in zip(a, b)]
+    if kind == 'ite':
+        fs = [free_atoms(x, k) for x in t[1:]]
+        return [gor(*[f[i] for f in fs]) for i in range(k)]
+    if kind == 'q':
+        b = free_atoms(t[3], k)
+        return [gand(b[i], gnot(gor(*[s.sel[i] for s in t[2]]))) for i in range(k)]
+    if kind == 'cc':
+        fs = [free_atoms(x, k) for x in t[2]]
+        return [gor(*[f[i] for f in fs]) for i in range(k)]
+    if kind == 'cv':
+        fs = [free_atoms(x, k) for x in list(t[2]) + list(t[3])]
+        return [gor(*[f[i] for f in fs]) for i in range(k)]
+    if kind == 'fp':
+        b = free_atoms(t[3], k)
+        return [gand(b[i], gnot(t[1].sel[i])) for i in range(k)]
+    raise KeyError(kind)
+
+
+def all_atoms(t, k):
+    """atom i occurs anywhere in the text of t (leaf variable or binder position)"""
+    kind = t[0]
+    if kind == 'leaf':
+        return [gand(t[1].g('var'), t[2].sel[i]) for i in range(k)]
+    if kind == 'not':
+        return all_atoms(t[1], k)
+    if kind == 'bin':
+        a, b = all_atoms(t[2], k), all_atoms(t[3], k)
+        return [gor(x, y) for x, y in zip(a, b)]
+    if kind == 'ite':
+        fs = [all_atoms(x, k) for x in t[1:]]
+        return [gor(*[f[i] for f in fs]) for i in range(k)]
+    if kind == 'q':
+        b = all_atoms(t[3], k)
+        return [gor(b[i], *[s.sel[i] for s in t[2]]) for i in range(k)]
+    if kind == 'cc':
+        fs = [all_atoms(x, k) for x in t[2]]
+        return [gor(*[f[i] for f in fs]) for i in range(k)]
+    if kind == 'cv':
+        fs = [all_atoms(x, k) for x in list(t[2]) + list(t[3])]
+        return [gor(*[f[i] for f in fs]) for i in range(k)]
+    if kind == 'fp':
+        b = all_atoms(t[3], k)
+        return [gor(b[i], t[1].sel[i]) for i in range(k)]
+    raise KeyError(kind)
+
+
+def symbol_occurrences(t):
+    """symbols in text order: list of (Choice sym, guard 'this position is a variable token')"""
+    kind = t[0]
+    if kind == 'leaf':
+        return [(t[2], t[1].g('var'), t[1])]
+    if kind == 'not':
+        return symbol_occurrences(t[1])
+    if kind == 'bin':
+        return symbol_occurrences(t[2]) + symbol_occurrences(t[3])
+    if kind == 'ite':
+        return sum([symbol_occurrences(x) for x in t[1:]], [])
+    if kind == 'q':
+        return [(s, True, None) for s in t[2]] + symbol_occurrences(t[3])
+    if kind == 'cc':
+        return sum([symbol_occurrences(x) for x in t[2]], [])
+    if kind == 'cv':
+        return sum([symbol_occurrences(x) for x in list(t[2]) + list(t[3])], [])
+    if kind == 'fp':
+        return [(t[1], True, None)] + symbol_occurrences(t[3])
+    raise KeyError(kind)
